@@ -393,7 +393,8 @@ def validate_records(spec_dir, module, cfg, work, recs_path, chunk=40000, timeou
     """Runs TLC over recs_path (ndjson) in chunks.  Returns (stats, mismatching records).
     Every record must have been examined (distinct states == records), else Infra."""
     with open(recs_path) as fh:
-        lines = fh.read().splitlines(True)
+        # records are separated by "\n" only: str.splitlines would also split at U+0085, U+2028, form feeds ... inside a JSON string
+        lines = [x + "\n" for x in fh.read().split("\n") if x]
     if not lines:
         raise Infra("no records were produced")
     mism = []
